@@ -639,11 +639,15 @@ func seqCounter(c *Ctx, a *attackAnchors) (owner types.Type, field int, why stri
 				return
 			}
 			n++
-			if ld, isL := isLoad(st.Val); isL {
-				if cfa, isFA := ld.X.(*ssa.FieldAddr); isFA {
-					src = cfa
+			// directly, or through the result of a same-package helper (atk.next())
+			flowsFrom(st.Val, func(v ssa.Value) bool {
+				if ld, isL := isLoad(v); isL {
+					if cfa, isFA := ld.X.(*ssa.FieldAddr); isFA && src == nil && !isNamedType(cfa.X.Type(), "lib", "Result") && types.Identical(ld.Type(), st.Val.Type()) {
+						src = cfa
+					}
 				}
-			}
+				return false
+			})
 		})
 	}
 	if n != 1 || src == nil {
